@@ -1,5 +1,8 @@
 import DnpProofs.Props.C08
 import DnpModel.Proc.Lineshape
+import DnpModel.Proc.Fit
+import Mathlib.Tactic.FieldSimp
+import Mathlib.Tactic.Ring
 import Mathlib.Analysis.SpecialFunctions.Gaussian.GaussianIntegral
 import Mathlib.Analysis.SpecialFunctions.Integrals.Basic
 import Mathlib.MeasureTheory.Integral.IntegralEqImproper
@@ -168,5 +171,44 @@ theorem popt_labels (arange : Nat → List κ) {d r : Data κ α} {dim : String}
         simp only [hℓ', if_true]
         congr 2
         exact trace_congr d dim _ _ (fun x hx => by simp [hx])
+
+/-! ### the grid of the fitted curve -/
+open Dnp.Fit in
+/-- `fit_points = None`: the fitted curve is evaluated on the data axis itself -/
+theorem fitGrid_none (coord : List ℚ) (lo hi : ℚ) : fitGrid (fun n => (n : ℚ)) coord lo hi none = coord := rfl
+
+open Dnp.Fit in
+/-- `fit_points = n ≥ 2`: exactly n points, the first is the axis minimum, the last the axis maximum, and consecutive
+    points are (max − min)/(n − 1) apart — whatever the data axis looks like (log-spaced, descending, …) -/
+theorem fitGrid_some (coord : List ℚ) (lo hi : ℚ) (n : ℕ) (hn : 2 ≤ n) :
+    let g := fitGrid (fun n => (n : ℚ)) coord lo hi (some n)
+    g.length = n ∧ g.head? = some lo ∧ g.getLast? = some hi ∧
+    ∀ k, k + 1 < n → g.getD (k + 1) 0 - g.getD k 0 = (hi - lo) / ((n : ℚ) - 1) := by
+  intro g
+  have hne : n ≠ 1 := by omega
+  have hg : g = (List.range n).map (fun (k : ℕ) => lo + (hi - lo) * (k : ℚ) / ((n - 1 : ℕ) : ℚ)) := by
+    show linspace _ lo hi n = _
+    unfold linspace; rw [if_neg hne]
+  have hcast : ((n - 1 : ℕ) : ℚ) = (n : ℚ) - 1 := by
+    rw [Nat.cast_sub (by omega)]; simp
+  have hpos : (n : ℚ) - 1 ≠ 0 := by
+    have : (2 : ℚ) ≤ n := by exact_mod_cast hn
+    intro h; linarith
+  refine ⟨by rw [hg]; simp, ?_, ?_, ?_⟩
+  · rw [hg]
+    obtain ⟨m, rfl⟩ : ∃ m, n = m + 1 := ⟨n - 1, by omega⟩
+    simp [List.range_succ_eq_map]
+  · rw [hg, List.getLast?_map, List.getLast?_range]
+    have : n ≠ 0 := by omega
+    simp only [this, if_false, Option.map_some, hcast]
+    field_simp
+    ring
+  · intro k hk
+    rw [hg]
+    simp only [List.getD_eq_getElem?_getD, List.getElem?_map]
+    rw [List.getElem?_range hk, List.getElem?_range (by omega)]
+    simp only [Option.map_some, Option.getD_some, hcast, Nat.cast_add, Nat.cast_one]
+    field_simp
+    ring
 
 end Dnp.C18
